@@ -31,6 +31,9 @@ class Def:
         self.filter = filter
 
 
+MAX_EXPANSION_DEPTH = 10     # Nesting limit of line macro expansions inside line macro expansions.
+
+
 def verifyMacroLine(match: Match[str], reader: io.Reader) -> bool:
     if macros.DEF_OPEN.search(match[0]):
         # Do not process macro definitions.
@@ -42,8 +45,10 @@ def verifyMacroLine(match: Match[str], reader: io.Reader) -> bool:
         # This stops infinite recursion.
         return False
     # Insert the macro value into the reader just ahead of the cursor.
-    pos = reader.pos+1
-    reader.lines[pos:pos] = value.split('\n')
+    if not reader.insertExpansion(value.split('\n'), MAX_EXPANSION_DEPTH):
+        # A macro that keeps expanding into lines that invoke it again would never terminate.
+        options.errorCallback('macro expansion nesting limit exceeded: ' + match[0])
+        return False
     return True
 
 
